@@ -114,7 +114,7 @@ func oneRun(t *testing.T, prop string, sc *Scenario, genT, schedT *simrt.RecTape
 	out.Nontrivial = o.Nontrivial
 	out.Sample = o.Sample
 	out.Tags = o.Tags
-	if verbose || len(out.Viol) > 0 {
+	if verbose || len(out.Viol) > 0 || out.Races > 0 {
 		out.Gen = genT.Rec
 		out.Sched = schedT.Rec
 		out.LiveG = live
